@@ -112,17 +112,17 @@ End Oracles.
 
 Definition ops5 : list bytes := [$">="; $"<="; $">"; $"<"; $"="].
 
-(* bound texts in scope: plain, not starting with an operator character, no x/X component,
-   not the wildcard *)
+(* bound texts in scope: plain, not starting with an operator character, no x/X among the first
+   three dot-separated components (major, minor, patch), not the wildcard *)
 Definition bound_scope (a : bytes) : bool :=
   plain a
   && match a with [] => false | c :: _ => negb (opchar c) end
-  && negb (existsb is_x (split_c "."%char a))
+  && negb (existsb is_x (firstn 3 (split_c "."%char a)))
   && negb (beq a $"*").
 
 Lemma bound_scope_facts a : bound_scope a = true ->
   plain a = true /\ a <> [] /\ match a with [] => True | c :: _ => opchar c = false end /\
-  existsb is_x (split_c "."%char a) = false /\ beq a $"*" = false.
+  existsb is_x (firstn 3 (split_c "."%char a)) = false /\ beq a $"*" = false.
 Proof.
   unfold bound_scope. rewrite !andb_true_iff, !negb_true_iff.
   intros [[[H1 H2] H3] H4]. repeat split; auto.
@@ -141,13 +141,13 @@ Lemma parse_single_core_op op a :
 Proof.
   intros Hin Hs. apply bound_scope_facts in Hs. destruct Hs as (Hp & Hne & Hhd & Hx & Hstar).
   pose proof (first_prefix_hit npm_ops op a ops_ok_npm (ops5_in_npm op Hin) Hhd) as Hfp.
-  assert (Hsplit : existsb is_x (split_c "."%char (op ++ a)) = false).
+  assert (Hsplit : existsb is_x (firstn 3 (split_c "."%char (op ++ a))) = false).
   { assert (D : contains_c "."%char op = false).
     { cbn in Hin. repeat (destruct Hin as [<-|Hin]; [reflexivity|]). contradiction. }
     rewrite (split_c_prepend "."%char op a D).
     destruct (split_c "."%char a) as [|f fs].
     - cbn in Hin. repeat (destruct Hin as [<-|Hin]; [reflexivity|]). contradiction.
-    - cbn [existsb] in *. apply orb_false_iff in Hx. destruct Hx as [_ Hx]. rewrite Hx, orb_false_r.
+    - cbn [firstn existsb] in *. apply orb_false_iff in Hx. destruct Hx as [_ Hx]. rewrite Hx, orb_false_r.
       cbn in Hin. repeat (destruct Hin as [<-|Hin]; [reflexivity|]). contradiction. }
   unfold parse_single_core. rewrite Hsplit, Hfp.
   rewrite (trim_space_no_sp a (plain_no_sp a Hp)).
@@ -443,7 +443,7 @@ Qed.
 Lemma single_core_digit_head ds rest :
   ds <> [] -> forallb is_digit ds = true ->
   parse_single_core (ds ++ rest) =
-    if existsb is_x (split_c "."%char (ds ++ rest)) then parse_xrange (ds ++ rest)
+    if existsb is_x (firstn 3 (split_c "."%char (ds ++ rest))) then parse_xrange (ds ++ rest)
     else match first_prefix npm_ops (ds ++ rest) with
          | Some (op, r) => Some [(op, trim_space r)]
          | None => Some [($"=", ds ++ rest)]
@@ -476,7 +476,7 @@ Section XRange.
     { rewrite split_c_app, Sw; [reflexivity|]. apply (forallb_lacks is_digit); auto. }
     rewrite parse_range_plain.
     - rewrite (single_core_digit_head ds _ Hne Hd), Sp.
-      cbn [existsb]. rewrite Hw. cbn [orb]. rewrite orb_true_r.
+      cbn [firstn existsb]. rewrite Hw. cbn [orb]. rewrite orb_true_r.
       unfold parse_xrange. rewrite Sp, (atoi_digit_string ds Hne Hd Hlt), Hw, Hv.
       f_equal. apply two_bounds; auto.
     - rewrite plain_app, (digits_plain ds Hd). cbn [plain forallb andb]. exact Pw.
@@ -504,7 +504,7 @@ Section XRange.
       rewrite Sw. reflexivity. }
     rewrite parse_range_plain.
     - rewrite (single_core_digit_head ds1 _ Hne1 Hd1), Sp.
-      cbn [existsb]. rewrite Hw. cbn [orb]. rewrite !orb_true_r.
+      cbn [firstn existsb]. rewrite Hw. cbn [orb]. rewrite !orb_true_r.
       unfold parse_xrange. rewrite Sp, (atoi_digit_string ds1 Hne1 Hd1 Hlt1), Hw,
         (atoi_digit_string ds2 Hne2 Hd2 Hlt2), Hv.
       f_equal. apply two_bounds; auto.
@@ -878,7 +878,7 @@ Proof.
   destruct (beq c $"*"). { intros H. injection H as <-. reflexivity. }
   destruct (has_prefix $"^" c). { apply parse_caret_no_ne. }
   destruct (has_prefix $"~" c). { apply parse_tilde_no_ne. }
-  destruct (existsb is_x (split_c "."%char c)). { apply parse_xrange_no_ne. }
+  destruct (existsb is_x (firstn 3 (split_c "."%char c))). { apply parse_xrange_no_ne. }
   destruct (first_prefix npm_ops c) as [[op rest]|] eqn:F.
   - apply first_prefix_in in F. destruct F as [Hin Hp].
     intros H. injection H as <-.
@@ -1125,6 +1125,13 @@ Proof. vm_compute. reflexivity. Qed.
 (* "1.*" is an exact match against the invalid version "1.*": accepted, empty *)
 Example ex_star_component : self_contains $"1.*" $"1.0.0" = Some false.
 Proof. vm_compute. reflexivity. Qed.
+(* an x among the pre-release identifiers is an identifier, not a wildcard: the bound is in scope *)
+Example ex_x_identifier :
+  bound_scope $"1.0.0-alpha.x" = true /\
+  self_contains $">=1.0.0-alpha.x" $"1.5.0" = Some true /\
+  self_contains $"<2.0.0-rc.X.1" $"1.2.5" = Some true /\
+  self_contains $"=1.0.0-alpha.x" $"1.0.0-alpha.x" = Some true.
+Proof. vm_compute. repeat split. Qed.
 (* a signed major in an x-range is accepted by Atoi: "+1.x" = "1.x", "-1.x" is empty *)
 Example ex_signed_x : self_contains $"+1.x" $"1.5.0" = Some true /\ self_contains $"-1.x" $"1.5.0" = Some false.
 Proof. vm_compute. auto. Qed.
